@@ -230,6 +230,83 @@ pub fn run(ctx: &Ctx, model: &mut Model, rep: &mut Report) {
             rep.fail(json!({"kind": "content", "key": k, "text": t, "what": format!("repaired finding {} is back: {}", f.id, what)}));
         }
     }
+    // hard line breaks.  Finding D8 (open): the reader drops every line break inside a paragraph or heading, the words on
+    // either side are glued.  Nothing *else* may happen to such a text: its formatting must be the formatting of the text
+    // with the break (and the continuation line's indentation) taken out — a continuation line that looks like a list
+    // item, a heading or a quote stays paragraph text, the second line of a setext heading stays in the heading.
+    {
+        let d8_open = known::is_open(ctx, "C01", "D8");
+        let mut texts: Vec<String> = vec![
+            "first  \n    - second\n".into(),
+            "first\\\n    # second\n".into(),
+            "first  \nsecond\n======\n\nbody\n".into(),
+            "a  \nb\n".into(),
+            "- item one  \n      > not a quote\n- item two\n".into(),
+            "> quoted  \n>     1. not a list\n".into(),
+        ];
+        for i in 0..(if ctx.thorough { 200 } else { 30 }) {
+            let mut r = crate::rng::Rng::for_case(ctx.seed ^ 0xC01B, i as u64);
+            let w = |r: &mut crate::rng::Rng| r.pick(&["alpha", "beta", "gamma", "über", "x1"]).to_string();
+            let brk = if r.chance(1, 2) { "  \n" } else { "\\\n" };
+            let indent = r.pick(&["", "    ", "     "]).to_string();
+            let lead = r.pick(&["", "- ", "# ", "> ", "1. ", "+ ", "## "]).to_string();
+            // without four columns of indentation a marker would end the paragraph: plain continuation only
+            let lead = if indent.is_empty() { String::new() } else { lead };
+            let pre = r.pick(&["", "- ", "> ", "# intro\n\n"]).to_string();
+            let pad = if pre == "- " || pre == "> " { "  " } else { "" };
+            texts.push(format!("{}{} {}{}{}{}{}{} {}\n\nafter {}\n", pre, w(&mut r), w(&mut r), brk, if pre == "> " { "> " } else { pad }, indent, lead, w(&mut r), w(&mut r), w(&mut r)));
+        }
+        for t in &texts {
+            rep.evaluations += 1;
+            rep.count("hard_break_texts");
+            if !d8_open {
+                if let Some(what) = check_doc("a", t) {
+                    rep.fail(json!({"kind": "content", "key": "a", "text": t, "via": "Import", "what": what}));
+                }
+                continue;
+            }
+            // the break and the blanks of the continuation line taken out (inside a quote the `>` of the line too)
+            let mut glued = String::new();
+            let mut lines = t.split('\n').peekable();
+            let mut joining = false;
+            let mut quoted = false;
+            while let Some(l) = lines.next() {
+                let mut l = l.to_string();
+                let quoted_line = l.starts_with('>');
+                if joining {
+                    l = l.trim_start().to_string();
+                    if quoted {
+                        if let Some(rest) = l.strip_prefix('>') {
+                            l = rest.trim_start().to_string();
+                        }
+                    }
+                } else {
+                    quoted = quoted_line;
+                }
+                let hard = l.ends_with("  ") || l.ends_with('\\');
+                if hard && lines.peek().is_some() {
+                    glued.push_str(l.trim_end_matches(' ').trim_end_matches('\\'));
+                    joining = true;
+                } else {
+                    glued.push_str(&l);
+                    if lines.peek().is_some() {
+                        glued.push('\n');
+                    }
+                    joining = false;
+                }
+            }
+            for ext in ["", ".md"] {
+                match (format_single("a", t, ext), format_single("a", &glued, ext)) {
+                    (Ok(x), Ok(y)) if x == y => {}
+                    (Ok(x), Ok(y)) => {
+                        rep.fail(json!({"kind": "hard_break", "key": "a", "text": t, "what": format!("a hard line break does more than glue the words around it (finding D8): formatted {:?}, the text without the break formats to {:?}", x, y)}));
+                        break;
+                    }
+                    _ => {}
+                }
+            }
+        }
+    }
     // trailing whitespace that is content: code lines ending in spaces / a tab, front matter, a no-break space
     for t in ["```\nfirst line  \nsecond\t\n   \n```\n\nafter\n", "---\ntitle: x  \n---\n\n# T\n\ntext\n", "para ending in a no-break space\u{a0}\n\nnext\n", "- item\n\n  ```\n  code  \n  ```\n", "> ```\n> code  \n> x\t\n> ```\n>\n> quoted paragraph\n"] {
         rep.evaluations += 1;
